@@ -8,6 +8,8 @@ reference model advanced in lock-step; receiver snapshot unchanged.
 
 from __future__ import annotations
 
+from functools import lru_cache
+
 import itertools as itt
 
 from ..graphs import (
@@ -35,6 +37,7 @@ HASH_SEEDS = {"quick": [0, 1], "thorough": [0, 1, 2, 3]}
 CHUNK = 8
 
 
+@lru_cache(maxsize=None)
 def _universe(tier):
     out = [("L", g) for g in enum_L(2)] + [("L", g) for g in enum_L(3)] + [("D", g) for g in enum_D(3)]
     if tier == "thorough":
